@@ -18,7 +18,7 @@ import time
 
 REPO = os.environ.get("VERIF_REPO", "/repo")
 PY = "/venv/bin/python"
-KEEP = 3  # scratch directories kept (least recently used are deleted)
+KEEP = 12  # scratch directories kept (least recently used are deleted)
 
 NATIVE_SUFFIXES = (".pyx", ".pxd", ".cpp", ".h", ".hpp", ".c")
 SKIP_DIRS = {".git", "build", "dist", "doc", "logo", "misc", "__pycache__", ".pytest_cache",
